@@ -10,6 +10,7 @@ pub mod c02;
 pub mod c03;
 pub mod c04;
 pub mod c05;
+pub mod c16;
 pub mod c06;
 pub mod c07;
 pub mod snipbatch;
@@ -27,6 +28,7 @@ pub fn worker(prop: &str, case: &Value) -> Value {
         "C03" => c03::worker(case),
         "C04" => c04::worker(case),
         "C05" => c05::worker(case),
+        "C16" => c16::worker(case),
         "C06" => c06::worker(case),
         "C07" => c07::worker(case),
         "C08" => c08::worker(case),
@@ -46,6 +48,7 @@ pub fn drive(prop: &str, tier: &str) -> i32 {
         "C03" => c03::drive(tier),
         "C04" => c04::drive(tier),
         "C05" => c05::drive(tier),
+        "C16" => c16::drive(tier),
         "C06" => c06::drive(tier),
         "C07" => c07::drive(tier),
         "C08" => c08::drive(tier),
